@@ -1568,12 +1568,17 @@ impl AggregationState {
             if id == next_id {
                 any_new = true;
                 self.raw_key_values[col].push(accessor.extract_scalar(row));
-            } else if matches!(
-                accessor,
-                TypedArrayAccessor::String(_)
-                    | TypedArrayAccessor::Other(_)
-                    | TypedArrayAccessor::DictString(_)
-            ) {
+            } else if raw_key == u64::MAX
+                || matches!(
+                    accessor,
+                    TypedArrayAccessor::String(_)
+                        | TypedArrayAccessor::Other(_)
+                        | TypedArrayAccessor::DictString(_)
+                )
+            {
+                // u64::MAX is both the NULL marker and the bit pattern of the
+                // integer -1 (and of one NaN payload), so a hit on it must be
+                // verified too or `NULL` and `-1` share a group.
                 // Raw keys for strings/other types are lossy encodings — verify
                 // the hit against the registered value; on collision, fall back
                 // to the exact HashMap path for this whole state.
